@@ -64,7 +64,7 @@ type node struct {
 	// unwritten: [first,last] file blocks preallocated with debugfs fallocate (an unwritten extent: reads as zeros);
 	// a library that does not support them may refuse the file with an error
 	unwritten [][2]int
-	frag    bool // written into fragmented free space (many extents, no holes)
+	frag      bool // written into fragmented free space (many extents, no holes)
 	// metadata as the reference tool reports it (debugfs stat), filled by refStat
 	ref *refMeta
 }
@@ -87,10 +87,10 @@ type tree struct {
 	root  string // host directory
 	nodes map[string]*node
 	// debugfs commands to run after mke2fs (in order)
-	cmds    []string
+	cmds []string
 	// files with unwritten extents: buildImage fills their reserved blocks with a pattern (stale bytes)
 	prealloc []string
-	hostTmp string // host files written with debugfs `write`
+	hostTmp  string // host files written with debugfs `write`
 }
 
 var nameAlphabet = []string{"a", "b", "c", "d", "e", "f", "g", "x", "y", "z", "A", "Q", "Z", "0", "1", "7", "9", "_", "-", ".", "+", "=", ",", "@", "%", "~", "é", "日", "ß"}
